@@ -67,10 +67,23 @@ class Hist:
         return repr((self.con, self.dirs, self.pool, self.ops))
 
 
+def _as_iterable(lst, k):
+    """The bulk entry points and nondominated() take any iterable of solutions: rotate through a list, a tuple,
+    a one-shot iterator and a generator (the last two can be walked only once)."""
+    k %= 4
+    if k == 0:
+        return lst
+    if k == 1:
+        return tuple(lst)
+    if k == 2:
+        return iter(lst)
+    return (x for x in lst)
+
+
 def run_real(h):
     """-> (trace, objs) ; trace[i] = (returned value or None, [sid of contents])"""
     from platypus import Archive
-    p = plat.mk_problem(len(h.dirs), h.dirs, nconstrs=h.con)
+    p = plat.mk_problem_sticky(len(h.dirs), h.dirs, nconstrs=h.con)
     objs = [plat.mk_solution(p, o, c) for o, c in h.pool]
     sid = {id(s): i for i, s in enumerate(objs)}
     a = Archive()
@@ -84,9 +97,9 @@ def run_real(h):
         elif kind == 1:
             a.append(objs[ids[0]])
         elif kind == 2:
-            a.extend([objs[i] for i in ids])
+            a.extend(_as_iterable([objs[i] for i in ids], len(trace)))
         elif kind == 3:
-            a += [objs[i] for i in ids]
+            a += _as_iterable([objs[i] for i in ids], len(trace) + 1)
         else:
             a += objs[ids[0]]
         trace.append((ret, [sid[id(s)] for s in a]))
@@ -99,7 +112,7 @@ def run_nondominated(h, order=None):
     objs = [plat.mk_solution(p, o, c) for o, c in h.pool]
     sid = {id(s): i for i, s in enumerate(objs)}
     offered = [i for _, ids in h.ops for i in ids] if order is None else order
-    return [sid[id(s)] for s in nondominated([objs[i] for i in offered])]
+    return [sid[id(s)] for s in nondominated(_as_iterable([objs[i] for i in offered], len(offered)))]
 
 
 def oracle(h, trace, nd_out):
